@@ -1,4 +1,5 @@
 import Indi.Properties.C05
+import Indi.Properties.C05b
 #print axioms Indi.Rtr.process_deliveries
 #print axioms Indi.Rtr.policy_refinement
 #print axioms Indi.Rtr.C05_clients
@@ -11,3 +12,8 @@ import Indi.Properties.C05
 #print axioms Indi.Rtr.default_policy_is_never
 #print axioms Indi.Rtr.C05_device_kinds
 #print axioms Indi.Rtr.deliverCond_eq_allows
+#print axioms Indi.Rtr.procR_no_reactions
+#print axioms Indi.Rtr.procR_deliveries_allowed
+#print axioms Indi.Rtr.procR_isBlob_own
+#print axioms Indi.Rtr.procR_rs_sublist
+#print axioms Indi.Rtr.traceR_deliveries_allowed
